@@ -17,10 +17,19 @@
                                (`last_velocity` IS `velocity`) it was built from v_new alone (`aliased_midpoint`)
   Order of accuracy — PARTIAL (DESIGN §7 C07): the step map is symmetric (above) and consistent
   (`verlet_consistent`: Φ_0 = id and the first-order term is the vector field); a symmetric consistent one-step method
-  has even order (Hairer–Lubich–Wanner II.3.2) — cited, not formalised; the factor four is tested by Richardson ratios.
+  has even order (Hairer–Lubich–Wanner II.3.2) — cited, not formalised for a general smooth force; the factor four is tested by
+  Richardson ratios.  PROVED for harmonic models (any number of modes, masses, steps), with explicit constants:
+  * `harmonicFlow_solves`          x cos ωt + (v/ω) sin ωt, v cos ωt − ω x sin ωt IS the exact solution (HasDerivAt)
+  * `verlet_harmonic_local_error`  one step differs from the exact solution by at most (|x|+|v/ω|)|ω dt|³ (local error third order)
+  * `vmap_iterate_bounded`         stability: the numerical solution stays within 2‖z₀‖ for all times (shadow invariant)
+  * `verlet_harmonic_global_error`, `…_xv`   after k steps (T = k dt) the error is at most k|ω dt|³‖z₀‖ = (|ω|T)(ω dt)²‖z₀‖:
+                                   second order at fixed final time, for every k
 -/
 import MudProof.Properties.C02
+import MudProof.Properties.C01
 import MudModel.Verlet
+import Mathlib.Analysis.SpecialFunctions.Trigonometric.Deriv
+import Mathlib.Analysis.Complex.Trigonometric
 import Mathlib.Analysis.Normed.Algebra.MatrixExponential
 import Mathlib.Tactic
 
@@ -272,5 +281,285 @@ theorem full_run_reversible (F : (Fin n → ℝ) → (Fin n → ℝ)) (m : Fin n
       rwa [reverse_reverse] at this
     rw [h2]
     exact ih s
+
+/-! ### order of accuracy on harmonic models: local error third order, global error second order -/
+
+/-- exact flow of uncoupled harmonic modes of angular frequencies `ω_i`: the solution of `ẋ = v`, `v̇ = -ω² x` -/
+noncomputable def harmonicFlow (ω : Fin n → ℝ) (t : ℝ) (xv : (Fin n → ℝ) × (Fin n → ℝ)) : (Fin n → ℝ) × (Fin n → ℝ) :=
+  (fun i => xv.1 i * Real.cos (ω i * t) + xv.2 i / ω i * Real.sin (ω i * t),
+   fun i => xv.2 i * Real.cos (ω i * t) - ω i * xv.1 i * Real.sin (ω i * t))
+
+theorem harmonicFlow_zero (ω : Fin n → ℝ) (xv : (Fin n → ℝ) × (Fin n → ℝ)) : harmonicFlow ω 0 xv = xv := by
+  simp [harmonicFlow]
+
+/-- it is the exact solution: `d/dt x = v`, `d/dt v = -ω² x` (force `-m ω² x` over mass `m`) -/
+theorem harmonicFlow_solves (ω : Fin n → ℝ) (hω : ∀ i, ω i ≠ 0) (xv : (Fin n → ℝ) × (Fin n → ℝ)) (i : Fin n) (t : ℝ) :
+    HasDerivAt (fun s => (harmonicFlow ω s xv).1 i) ((harmonicFlow ω t xv).2 i) t ∧
+    HasDerivAt (fun s => (harmonicFlow ω s xv).2 i) (-(ω i) ^ 2 * (harmonicFlow ω t xv).1 i) t := by
+  have hlin : HasDerivAt (fun s : ℝ => ω i * s) (ω i) t := by
+    simpa using (hasDerivAt_id t).const_mul (ω i)
+  have hc : HasDerivAt (fun s => Real.cos (ω i * s)) (-Real.sin (ω i * t) * ω i) t := (Real.hasDerivAt_cos _).comp t hlin
+  have hs : HasDerivAt (fun s => Real.sin (ω i * s)) (Real.cos (ω i * t) * ω i) t := (Real.hasDerivAt_sin _).comp t hlin
+  constructor
+  · have := (hc.const_mul (xv.1 i)).add (hs.const_mul (xv.2 i / ω i))
+    simp only [harmonicFlow]
+    refine this.congr_deriv ?_
+    have := hω i
+    field_simp
+    ring
+  · have := (hc.const_mul (xv.2 i)).sub (hs.const_mul (ω i * xv.1 i))
+    simp only [harmonicFlow]
+    refine this.congr_deriv ?_
+    have := hω i
+    field_simp
+    ring
+
+/-- the Verlet step on harmonic modes in closed form (θ = ω dt) -/
+theorem verlet_harmonic_step (m ω : Fin n → ℝ) (hm : ∀ i, m i ≠ 0) (dt : ℝ) (xv : (Fin n → ℝ) × (Fin n → ℝ)) (i : Fin n) :
+    (verletStep (C01.harmonicF (fun j => m j * ω j ^ 2)) m dt xv).1 i
+      = xv.1 i * (1 - (ω i * dt) ^ 2 / 2) + xv.2 i * dt ∧
+    (verletStep (C01.harmonicF (fun j => m j * ω j ^ 2)) m dt xv).2 i
+      = xv.2 i * (1 - (ω i * dt) ^ 2 / 2) - ω i * xv.1 i * (ω i * dt - (ω i * dt) ^ 3 / 4) := by
+  obtain ⟨x, v⟩ := xv
+  have := hm i
+  simp only [verletStep, advancePosition, advanceVelocity, accel, C01.harmonicF, frac_real]
+  push_cast
+  constructor <;> (field_simp; ring)
+
+/-- **local error of one Verlet step is third order** (so the method is second order) on harmonic modes, with explicit
+    constants: for `|ω dt| ≤ 1` the position after one step differs from the exact solution by at most
+    `(|x| + |v/ω|)·|ω dt|³` and the velocity by at most `|ω|·(|x| + |v/ω|)·|ω dt|³` -/
+theorem verlet_harmonic_local_error (m ω : Fin n → ℝ) (hm : ∀ i, m i ≠ 0) (hω : ∀ i, ω i ≠ 0) (dt : ℝ)
+    (xv : (Fin n → ℝ) × (Fin n → ℝ)) (i : Fin n) (hθ : |ω i * dt| ≤ 1) :
+    |(verletStep (C01.harmonicF (fun j => m j * ω j ^ 2)) m dt xv).1 i - (harmonicFlow ω dt xv).1 i|
+      ≤ (|xv.1 i| + |xv.2 i / ω i|) * |ω i * dt| ^ 3 ∧
+    |(verletStep (C01.harmonicF (fun j => m j * ω j ^ 2)) m dt xv).2 i - (harmonicFlow ω dt xv).2 i|
+      ≤ |ω i| * (|xv.1 i| + |xv.2 i / ω i|) * |ω i * dt| ^ 3 := by
+  obtain ⟨h1, h2⟩ := verlet_harmonic_step m ω hm dt xv i
+  rw [h1, h2]
+  simp only [harmonicFlow]
+  have hc := Real.cos_bound hθ
+  have hs := Real.sin_bound hθ
+  set θ := ω i * dt with hθdef
+  set x := xv.1 i
+  set u := xv.2 i / ω i with hu
+  have hv : xv.2 i = ω i * u := by rw [hu]; field_simp [hω i]
+  have ha0 : 0 ≤ |θ| := abs_nonneg θ
+  have ha3 : 0 ≤ |θ| ^ 3 := by positivity
+  have ha4 : |θ| ^ 4 ≤ |θ| ^ 3 := by
+    have : |θ| ^ 4 = |θ| ^ 3 * |θ| := by ring
+    rw [this]; exact mul_le_of_le_one_right ha3 hθ
+  have ha5 : |θ| ^ 5 ≤ |θ| ^ 3 := by
+    have : |θ| ^ 5 = |θ| ^ 4 * |θ| := by ring
+    rw [this]; exact le_trans (mul_le_of_le_one_right (by positivity) hθ) ha4
+  have hcub : |θ ^ 3| = |θ| ^ 3 := abs_pow θ 3
+  set c := Real.cos θ - (1 - θ ^ 2 / 2) with hcdef
+  set sn := Real.sin θ - (θ - θ ^ 3 / 6) with hsdef
+  have hx0 : 0 ≤ |x| := abs_nonneg x
+  have hu0 : 0 ≤ |u| := abs_nonneg u
+  constructor
+  · have e : x * (1 - θ ^ 2 / 2) + xv.2 i * dt - (x * Real.cos θ + u * Real.sin θ) = -(x * c) + u * (θ ^ 3 / 6 - sn) := by
+      rw [hv, hcdef, hsdef, hθdef]; ring
+    rw [e]
+    have hB : |θ ^ 3 / 6 - sn| ≤ |θ| ^ 3 / 6 + |θ| ^ 5 / 100 := by
+      calc |θ ^ 3 / 6 - sn| ≤ |θ ^ 3 / 6| + |sn| := abs_sub _ _
+        _ ≤ |θ| ^ 3 / 6 + |θ| ^ 5 / 100 := by
+          have : |θ ^ 3 / 6| = |θ| ^ 3 / 6 := by rw [abs_div, hcub]; norm_num
+          rw [this]; linarith
+    calc |-(x * c) + u * (θ ^ 3 / 6 - sn)| ≤ |-(x * c)| + |u * (θ ^ 3 / 6 - sn)| := abs_add_le _ _
+      _ = |x| * |c| + |u| * |θ ^ 3 / 6 - sn| := by rw [abs_neg, abs_mul, abs_mul]
+      _ ≤ |x| * (|θ| ^ 4 * (5 / 96)) + |u| * (|θ| ^ 3 / 6 + |θ| ^ 5 / 100) := by
+          gcongr
+      _ ≤ (|x| + |u|) * |θ| ^ 3 := by nlinarith
+  · have e : xv.2 i * (1 - θ ^ 2 / 2) - ω i * x * (θ - θ ^ 3 / 4) - (xv.2 i * Real.cos θ - ω i * x * Real.sin θ)
+        = ω i * (-(u * c) + x * (sn + θ ^ 3 / 12)) := by
+      rw [hv, hcdef, hsdef]; ring
+    rw [e]
+    have hB : |sn + θ ^ 3 / 12| ≤ |θ| ^ 5 / 100 + |θ| ^ 3 / 12 := by
+      calc |sn + θ ^ 3 / 12| ≤ |sn| + |θ ^ 3 / 12| := abs_add_le _ _
+        _ ≤ |θ| ^ 5 / 100 + |θ| ^ 3 / 12 := by
+          have : |θ ^ 3 / 12| = |θ| ^ 3 / 12 := by rw [abs_div, hcub]; norm_num
+          rw [this]; linarith
+    rw [abs_mul, mul_assoc]
+    apply mul_le_mul_of_nonneg_left _ (abs_nonneg _)
+    calc |-(u * c) + x * (sn + θ ^ 3 / 12)| ≤ |-(u * c)| + |x * (sn + θ ^ 3 / 12)| := abs_add_le _ _
+      _ = |u| * |c| + |x| * |sn + θ ^ 3 / 12| := by rw [abs_neg, abs_mul, abs_mul]
+      _ ≤ |u| * (|θ| ^ 4 * (5 / 96)) + |x| * (|θ| ^ 5 / 100 + |θ| ^ 3 / 12) := by
+          gcongr
+      _ ≤ (|x| + |u|) * |θ| ^ 3 := by nlinarith
+
+/-- non-vacuity: one mode, ω = 1, dt = 1/2 -/
+example : |(fun _ : Fin 1 => (1 : ℝ)) 0 * (1 / 2)| ≤ 1 := by norm_num
+
+/-! #### one mode as a complex number: stability and global error -/
+
+/-- the Verlet step of one harmonic mode on `z = x + i·v/ω`, with `θ = ω dt` -/
+noncomputable def vmap (θ : ℝ) (z : ℂ) : ℂ :=
+  (((1 - θ ^ 2 / 2 : ℝ) : ℂ) - ((θ : ℝ) : ℂ) * I) * z + ((θ ^ 3 / 4 * z.re : ℝ) : ℂ) * I
+
+/-- the shadow invariant of one mode -/
+noncomputable def shadowS (θ : ℝ) (z : ℂ) : ℝ := z.im ^ 2 + z.re ^ 2 * (1 - θ ^ 2 / 4)
+
+theorem vmap_re_im (θ : ℝ) (z : ℂ) :
+    (vmap θ z).re = z.re * (1 - θ ^ 2 / 2) + z.im * θ ∧
+    (vmap θ z).im = z.im * (1 - θ ^ 2 / 2) - z.re * (θ - θ ^ 3 / 4) := by
+  have a2 : ((θ : ℂ) ^ 2).re = θ ^ 2 := by rw [← ofReal_pow, ofReal_re]
+  have b2 : ((θ : ℂ) ^ 2).im = 0 := by rw [← ofReal_pow, ofReal_im]
+  have a3 : ((θ : ℂ) ^ 3).re = θ ^ 3 := by rw [← ofReal_pow, ofReal_re]
+  have b3 : ((θ : ℂ) ^ 3).im = 0 := by rw [← ofReal_pow, ofReal_im]
+  constructor <;> simp [vmap, a2, b2, a3, b3] <;> ring
+
+theorem shadowS_vmap (θ : ℝ) (z : ℂ) : shadowS θ (vmap θ z) = shadowS θ z := by
+  obtain ⟨h1, h2⟩ := vmap_re_im θ z
+  simp only [shadowS, h1, h2]; ring
+
+theorem shadowS_iterate (θ : ℝ) (z : ℂ) (k : ℕ) : shadowS θ ((vmap θ)^[k] z) = shadowS θ z := by
+  induction k generalizing z with
+  | zero => rfl
+  | succ k ih => rw [Function.iterate_succ_apply, ih, shadowS_vmap]
+
+theorem normSq_le_shadow (θ : ℝ) (hθ : |θ| ≤ 1) (z : ℂ) : 3 / 4 * ‖z‖ ^ 2 ≤ shadowS θ z ∧ shadowS θ z ≤ ‖z‖ ^ 2 := by
+  have h2 : θ ^ 2 ≤ 1 := by
+    have := sq_abs θ
+    nlinarith [abs_nonneg θ]
+  rw [Complex.sq_norm, Complex.normSq_apply]
+  simp only [shadowS]
+  constructor <;> nlinarith [sq_nonneg z.re, sq_nonneg z.im, sq_nonneg θ, mul_nonneg (sq_nonneg z.re) (sq_nonneg θ)]
+
+/-- **stability**: the numerical solution stays bounded for all times -/
+theorem vmap_iterate_bounded (θ : ℝ) (hθ : |θ| ≤ 1) (z : ℂ) (k : ℕ) : ‖(vmap θ)^[k] z‖ ≤ 2 * ‖z‖ := by
+  have h1 := (normSq_le_shadow θ hθ ((vmap θ)^[k] z)).1
+  have h2 := (normSq_le_shadow θ hθ z).2
+  rw [shadowS_iterate] at h1
+  have h3 : ‖(vmap θ)^[k] z‖ ^ 2 ≤ (2 * ‖z‖) ^ 2 := by nlinarith [sq_nonneg ‖z‖]
+  exact (pow_le_pow_iff_left₀ (norm_nonneg _) (by positivity) (by norm_num)).mp h3
+
+/-- local error of the complex one-mode map against the exact rotation -/
+theorem vmap_local (θ : ℝ) (hθ : |θ| ≤ 1) (w : ℂ) : ‖vmap θ w - Complex.exp (-(θ : ℂ) * I) * w‖ ≤ 17 / 36 * |θ| ^ 3 * ‖w‖ := by
+  have hx : ‖(-(θ : ℂ) * I)‖ ≤ 1 := by simpa using hθ
+  have hb := Complex.exp_bound hx (n := 3) (by norm_num)
+  have hsum : ∑ m ∈ Finset.range 3, (-(θ : ℂ) * I) ^ m / (m.factorial : ℂ) = (((1 - θ ^ 2 / 2 : ℝ) : ℂ) - ((θ : ℝ) : ℂ) * I) := by
+    simp [Finset.sum_range_succ, Nat.factorial, mul_pow, I_sq]
+    ring
+  rw [hsum] at hb
+  have hnx : ‖(-(θ : ℂ) * I)‖ = |θ| := by simp
+  rw [hnx] at hb
+  have e : vmap θ w - Complex.exp (-(θ : ℂ) * I) * w
+      = -((Complex.exp (-(θ : ℂ) * I) - (((1 - θ ^ 2 / 2 : ℝ) : ℂ) - ((θ : ℝ) : ℂ) * I)) * w) + ((θ ^ 3 / 4 * w.re : ℝ) : ℂ) * I := by
+    simp only [vmap]; ring
+  rw [e]
+  have hre : |w.re| ≤ ‖w‖ := Complex.abs_re_le_norm w
+  have h3 : ‖((θ ^ 3 / 4 * w.re : ℝ) : ℂ) * I‖ ≤ |θ| ^ 3 / 4 * ‖w‖ := by
+    rw [norm_mul, norm_I, mul_one, Complex.norm_real, Real.norm_eq_abs, abs_mul, abs_div, abs_pow]
+    have : |(4 : ℝ)| = 4 := by norm_num
+    rw [this]
+    exact mul_le_mul_of_nonneg_left hre (by positivity)
+  calc _ ≤ ‖-((Complex.exp (-(θ : ℂ) * I) - (((1 - θ ^ 2 / 2 : ℝ) : ℂ) - ((θ : ℝ) : ℂ) * I)) * w)‖ + ‖((θ ^ 3 / 4 * w.re : ℝ) : ℂ) * I‖ :=
+        norm_add_le _ _
+    _ ≤ |θ| ^ 3 * ((Nat.succ 3 : ℝ) * ((Nat.factorial 3 : ℝ) * 3)⁻¹) * ‖w‖ + |θ| ^ 3 / 4 * ‖w‖ := by
+        rw [norm_neg, norm_mul]
+        have hb' : ‖Complex.exp (-(θ : ℂ) * I) - (((1 - θ ^ 2 / 2 : ℝ) : ℂ) - ((θ : ℝ) : ℂ) * I)‖
+            ≤ |θ| ^ 3 * ((Nat.succ 3 : ℝ) * ((Nat.factorial 3 : ℝ) * 3)⁻¹) := by exact_mod_cast hb
+        gcongr
+    _ = 17 / 36 * |θ| ^ 3 * ‖w‖ := by
+        simp [Nat.factorial]; ring
+
+/-- **global error of `k` steps**: `‖Φ^k z − e^{−ikθ} z‖ ≤ k·|θ|³·‖z‖` -/
+theorem vmap_global (θ : ℝ) (hθ : |θ| ≤ 1) (z : ℂ) (k : ℕ) :
+    ‖(vmap θ)^[k] z - Complex.exp (-((k : ℝ) * θ : ℝ) * I) * z‖ ≤ k * |θ| ^ 3 * ‖z‖ := by
+  induction k with
+  | zero => simp
+  | succ k ih =>
+    rw [Function.iterate_succ_apply']
+    set w := (vmap θ)^[k] z with hw
+    have hrot : Complex.exp (-(((k + 1 : ℕ) : ℝ) * θ : ℝ) * I) = Complex.exp (-(θ : ℂ) * I) * Complex.exp (-((k : ℝ) * θ : ℝ) * I) := by
+      rw [← Complex.exp_add]; congr 1; push_cast; ring
+    have e : vmap θ w - Complex.exp (-(((k + 1 : ℕ) : ℝ) * θ : ℝ) * I) * z
+        = (vmap θ w - Complex.exp (-(θ : ℂ) * I) * w) + Complex.exp (-(θ : ℂ) * I) * (w - Complex.exp (-((k : ℝ) * θ : ℝ) * I) * z) := by
+      rw [hrot]; ring
+    rw [e]
+    have hunit : ‖Complex.exp (-(θ : ℂ) * I)‖ = 1 := by
+      have := Complex.norm_exp_ofReal_mul_I (-θ)
+      simpa using this
+    have hloc := vmap_local θ hθ w
+    have hwb := vmap_iterate_bounded θ hθ z k
+    have h3 : 0 ≤ |θ| ^ 3 := by positivity
+    calc _ ≤ ‖vmap θ w - Complex.exp (-(θ : ℂ) * I) * w‖ + ‖Complex.exp (-(θ : ℂ) * I) * (w - Complex.exp (-((k : ℝ) * θ : ℝ) * I) * z)‖ := norm_add_le _ _
+      _ ≤ 17 / 36 * |θ| ^ 3 * ‖w‖ + k * |θ| ^ 3 * ‖z‖ := by
+          rw [norm_mul, hunit, one_mul]; exact add_le_add hloc ih
+      _ ≤ 17 / 36 * |θ| ^ 3 * (2 * ‖z‖) + k * |θ| ^ 3 * ‖z‖ := by gcongr
+      _ ≤ ((k + 1 : ℕ) : ℝ) * |θ| ^ 3 * ‖z‖ := by
+          push_cast
+          nlinarith [mul_nonneg h3 (norm_nonneg z)]
+
+/-! #### the model's Verlet run, mode by mode -/
+
+/-- one harmonic mode of a phase-space point as the complex number `x + i·v/ω` -/
+noncomputable def modeC (ω : Fin n → ℝ) (xv : (Fin n → ℝ) × (Fin n → ℝ)) (i : Fin n) : ℂ := ⟨xv.1 i, xv.2 i / ω i⟩
+
+theorem modeC_verletStep (m ω : Fin n → ℝ) (hm : ∀ i, m i ≠ 0) (hω : ∀ i, ω i ≠ 0) (dt : ℝ)
+    (xv : (Fin n → ℝ) × (Fin n → ℝ)) (i : Fin n) :
+    modeC ω (verletStep (C01.harmonicF (fun j => m j * ω j ^ 2)) m dt xv) i = vmap (ω i * dt) (modeC ω xv i) := by
+  obtain ⟨h1, h2⟩ := verlet_harmonic_step m ω hm dt xv i
+  obtain ⟨g1, g2⟩ := vmap_re_im (ω i * dt) (modeC ω xv i)
+  apply Complex.ext
+  · rw [g1]; simp only [modeC]; rw [h1]
+    have := hω i
+    field_simp
+  · rw [g2]; simp only [modeC]; rw [h2]
+    have := hω i
+    field_simp
+
+theorem modeC_verletRun (m ω : Fin n → ℝ) (hm : ∀ i, m i ≠ 0) (hω : ∀ i, ω i ≠ 0) (dt : ℝ) (k : ℕ)
+    (xv : (Fin n → ℝ) × (Fin n → ℝ)) (i : Fin n) :
+    modeC ω (verletRun (C01.harmonicF (fun j => m j * ω j ^ 2)) m dt k xv) i = (vmap (ω i * dt))^[k] (modeC ω xv i) := by
+  induction k generalizing xv with
+  | zero => rfl
+  | succ k ih => rw [verletRun, ih, modeC_verletStep m ω hm hω, Function.iterate_succ_apply]
+
+theorem modeC_flow (ω : Fin n → ℝ) (hω : ∀ i, ω i ≠ 0) (t : ℝ) (xv : (Fin n → ℝ) × (Fin n → ℝ)) (i : Fin n) :
+    modeC ω (harmonicFlow ω t xv) i = Complex.exp (-((ω i * t : ℝ) : ℂ) * I) * modeC ω xv i := by
+  have := hω i
+  apply Complex.ext
+  · simp [modeC, harmonicFlow, Complex.exp_re, Complex.exp_im]
+    ring
+  · simp [modeC, harmonicFlow, Complex.exp_re, Complex.exp_im]
+    field_simp
+    ring
+
+/-- **second-order convergence at a fixed final time, harmonic models** (any number of modes, any masses, any number of steps):
+    with `θ = ω_i dt`, `|θ| ≤ 1`, after `k` steps — final time `T = k dt` — the numerical mode `x + i v/ω` differs from the exact
+    one by at most `k |θ|³ ‖z₀‖ = (|ω_i| T)·(ω_i dt)²·‖z₀‖`: halving `dt` at fixed `T` divides the bound by four -/
+theorem verlet_harmonic_global_error (m ω : Fin n → ℝ) (hm : ∀ i, m i ≠ 0) (hω : ∀ i, ω i ≠ 0) (dt : ℝ) (k : ℕ)
+    (xv : (Fin n → ℝ) × (Fin n → ℝ)) (i : Fin n) (hθ : |ω i * dt| ≤ 1) :
+    ‖modeC ω (verletRun (C01.harmonicF (fun j => m j * ω j ^ 2)) m dt k xv) i - modeC ω (harmonicFlow ω (k * dt) xv) i‖
+      ≤ k * |ω i * dt| ^ 3 * ‖modeC ω xv i‖ := by
+  rw [modeC_verletRun m ω hm hω, modeC_flow ω hω]
+  have := vmap_global (ω i * dt) hθ (modeC ω xv i) k
+  have e : ((k : ℝ) * (ω i * dt) : ℝ) = (ω i * (k * dt) : ℝ) := by ring
+  rw [e] at this
+  exact this
+
+/-- … in the coordinates the trajectory logs: position and velocity -/
+theorem verlet_harmonic_global_error_xv (m ω : Fin n → ℝ) (hm : ∀ i, m i ≠ 0) (hω : ∀ i, ω i ≠ 0) (dt : ℝ) (k : ℕ)
+    (xv : (Fin n → ℝ) × (Fin n → ℝ)) (i : Fin n) (hθ : |ω i * dt| ≤ 1) :
+    |(verletRun (C01.harmonicF (fun j => m j * ω j ^ 2)) m dt k xv).1 i - (harmonicFlow ω (k * dt) xv).1 i|
+      ≤ k * |ω i * dt| ^ 3 * ‖modeC ω xv i‖ ∧
+    |(verletRun (C01.harmonicF (fun j => m j * ω j ^ 2)) m dt k xv).2 i - (harmonicFlow ω (k * dt) xv).2 i|
+      ≤ |ω i| * (k * |ω i * dt| ^ 3 * ‖modeC ω xv i‖) := by
+  have h := verlet_harmonic_global_error m ω hm hω dt k xv i hθ
+  set d := modeC ω (verletRun (C01.harmonicF (fun j => m j * ω j ^ 2)) m dt k xv) i - modeC ω (harmonicFlow ω (k * dt) xv) i
+  have hre : |d.re| ≤ ‖d‖ := Complex.abs_re_le_norm d
+  have him : |d.im| ≤ ‖d‖ := Complex.abs_im_le_norm d
+  constructor
+  · have : d.re = (verletRun (C01.harmonicF (fun j => m j * ω j ^ 2)) m dt k xv).1 i - (harmonicFlow ω (k * dt) xv).1 i := by
+      simp [d, modeC]
+    rw [← this]; exact le_trans hre h
+  · have : (verletRun (C01.harmonicF (fun j => m j * ω j ^ 2)) m dt k xv).2 i - (harmonicFlow ω (k * dt) xv).2 i = ω i * d.im := by
+      simp only [d, modeC, Complex.sub_im]
+      have := hω i
+      field_simp
+    rw [this, abs_mul]
+    exact mul_le_mul_of_nonneg_left (le_trans him h) (abs_nonneg _)
 
 end Mud.C07
